@@ -1358,11 +1358,15 @@ func (seq *Sequence) Release() error {
 }
 
 func (seq *Sequence) updateLease() error {
-	return seq.db.Update(func(txn *Txn) error {
+	// Adopt the new lease only after the transaction has committed: a failed commit (for
+	// example a conflict with another Sequence object of the same key) must not leave this
+	// object believing that it owns numbers which the store never granted to it.
+	var next, lease uint64
+	err := seq.db.Update(func(txn *Txn) error {
 		item, err := txn.Get(seq.key)
 		switch {
 		case err == ErrKeyNotFound:
-			seq.next = 0
+			next = 0
 		case err != nil:
 			return err
 		default:
@@ -1373,18 +1377,19 @@ func (seq *Sequence) updateLease() error {
 			}); err != nil {
 				return err
 			}
-			seq.next = num
+			next = num
 		}
 
-		lease := seq.next + seq.bandwidth
+		lease = next + seq.bandwidth
 		var buf [8]byte
 		binary.BigEndian.PutUint64(buf[:], lease)
-		if err = txn.SetEntry(NewEntry(seq.key, buf[:])); err != nil {
-			return err
-		}
-		seq.leased = lease
-		return nil
+		return txn.SetEntry(NewEntry(seq.key, buf[:]))
 	})
+	if err != nil {
+		return err
+	}
+	seq.next, seq.leased = next, lease
+	return nil
 }
 
 // GetSequence would initiate a new sequence object, generating it from the stored lease, if
